@@ -20,6 +20,8 @@ big integers as decimal strings.
   {"op":"vmt_quote","s":[cp…]}          → {"r":[cp…]}
   {"op":"bvcd_enc","scene":S,"pool0":[hex…]} → {"r":hex,"pool":[hex…],"strs":[hex…]}   (pool = pool0 + strings in call order)
   {"op":"bvcd_dec","b":hex,"pool":[hex…]}    → {"r":null|S}
+  {"op":"img_save","version":N,"entries":[{"crc","dur","last","sounds":[hex],"comp":hex,"scene":S|null,
+        "lazy":null|[poolId,[hex…],hex]}…]}      → {"r":hex|null}   (save_scenes_image_sync on a mix of parsed and lazy entries)
   S = {"crc","events":[E],"actors":[{"name","active","channels":[{"name","active","events":[E]}]}],"ramp":[[t,Q]],"ip"}
   E = {"extra":["plain",t]|["gesture",d]|["loop","c"]|["speak",cc,hex,b,b,b],"name","start","stop","p":[hex×3],
        "ramp","flags","dist","rel","timing","absP","absS":[[hex,Q]],"tn","tw":hex|null,"flex":[F]}
@@ -245,6 +247,17 @@ def handle (j : Json) : Except String Json := do
   | "vmt_quote" =>
     pure (r (Wire.codesOfStr (vmtQuote Gen.Tok.tables Gen.C20.vmtLead
       (← Wire.strOfCodes (← j.getObjVal? "s")))))
+  | "img_save" =>
+    let es ← (← (← j.getObjVal? "entries").getArr?).toList.mapM fun e => do
+      let lz ← e.getObjVal? "lazy"
+      let src ← if lz.isNull then (BJ.sceneOf (← e.getObjVal? "scene")).map C20.Bvcd.Src.scene
+        else do
+          let a ← lz.getArr?
+          pure (C20.Bvcd.Src.lazy (← (a[0]!).getNat?) (← hexList a[1]!) (← unhex a[2]!))
+      pure ({ crc := ← e.getObjValAs? Nat "crc", durMs := ← e.getObjValAs? Nat "dur",
+              lastMs := ← e.getObjValAs? Nat "last", sounds := ← hexList (← e.getObjVal? "sounds"),
+              src := src, comp := ← unhex (← e.getObjVal? "comp") } : C20.Bvcd.MEntry)
+    pure (r (hexOpt (C20.Bvcd.saveImage (← j.getObjValAs? Nat "version") es)))
   | "bvcd_enc" =>
     let sc ← BJ.sceneOf (← j.getObjVal? "scene")
     let pool0 ← hexList (← j.getObjVal? "pool0")
